@@ -15,6 +15,7 @@ import (
 	"os"
 	"path/filepath"
 	"sort"
+	"strings"
 	"sync"
 	"testing"
 
@@ -123,6 +124,7 @@ type bigMember struct {
 	data     []byte // nil for a big member
 	size     int64  // uncompressed size of a big member (all zero bytes)
 	deflated bool   // big member stored as a deflate stream (a few MB)
+	desc     bool   // sizes and CRC in a data descriptor behind the data (as streaming writers do)
 }
 
 var (
@@ -193,11 +195,18 @@ func buildBig(members []bigMember, style string) (*sparse, []entry) {
 		if bigU || bigC || bigOff {
 			ver = 45
 		}
+		var flags uint16
+		lcrc := crc
+		if m.desc {
+			// what Go's streaming writer does: no sizes in the local header (and no ZIP64
+			// extra there), a descriptor of 16 or, for ZIP64 members, 24 bytes behind the data
+			flags, lcrc, u32l, c32l, lextra = 8, 0, 0, 0, nil
+		}
 		var lh []byte
 		lh = u32(lh, 0x04034b50)
-		lh = u16(u16(u16(lh, ver), 0), method)
+		lh = u16(u16(u16(lh, ver), flags), method)
 		lh = u16(u16(lh, 0), 0x21) // time, date
-		lh = u32(u32(u32(lh, crc), c32l), u32l)
+		lh = u32(u32(u32(lh, lcrc), c32l), u32l)
 		lh = u16(u16(lh, uint16(len(m.name))), uint16(len(lextra)))
 		lh = append(append(lh, m.name...), lextra...)
 		s.pieces = append(s.pieces, piece{pos, lh})
@@ -228,13 +237,24 @@ func buildBig(members []bigMember, style string) (*sparse, []entry) {
 		if z != nil {
 			cextra = append(u16(u16(cextra, 1), uint16(len(z))), z...)
 		}
-		cd = centralEntry(cd, ver, method, crc, c32c, u32c, m.name, cextra, o32)
+		cd = centralEntry(cd, ver, flags, method, crc, c32c, u32c, m.name, cextra, o32)
 		e := entry{Name: m.name, Offset: pos, DataOff: dataOff, CSize: uint64(csize), USize: uint64(usize), CRC: crc, Method: method}
 		if m.data != nil {
 			e.SHA = sha(m.data)
 		}
-		want = append(want, e)
 		pos = dataOff + csize
+		if m.desc {
+			d := u32(u32(nil, 0x08074b50), crc)
+			if bigU || bigC {
+				d = u64(u64(d, uint64(csize)), uint64(usize))
+			} else {
+				d = u32(u32(d, uint32(csize)), uint32(usize))
+			}
+			s.pieces = append(s.pieces, piece{pos, d})
+			pos += int64(len(d))
+		}
+		e.End = pos
+		want = append(want, e)
 	}
 	cdOff := pos
 	// ZIP64 end of central directory record + locator + end record
@@ -260,11 +280,11 @@ func buildBig(members []bigMember, style string) (*sparse, []entry) {
 	return s, want
 }
 
-func centralEntry(cd []byte, ver, method uint16, crc, csize, usize uint32, name string, extra []byte, off uint32) []byte {
+func centralEntry(cd []byte, ver, flags, method uint16, crc, csize, usize uint32, name string, extra []byte, off uint32) []byte {
 	le := binary.LittleEndian
 	cd = le.AppendUint32(cd, 0x02014b50)
 	cd = le.AppendUint16(le.AppendUint16(cd, ver), ver)
-	cd = le.AppendUint16(le.AppendUint16(cd, 0), method) // flags, method
+	cd = le.AppendUint16(le.AppendUint16(cd, flags), method) // flags, method
 	cd = le.AppendUint16(le.AppendUint16(cd, 0), 0x21)
 	cd = le.AppendUint32(le.AppendUint32(le.AppendUint32(cd, crc), csize), usize)
 	cd = le.AppendUint16(le.AppendUint16(le.AppendUint16(cd, uint16(len(name))), uint16(len(extra))), 0)
@@ -315,6 +335,11 @@ func relicListSparse(s *sparse) (ents []entry, err error) {
 	}
 	for _, f := range d.File {
 		e := entry{Name: f.Name, Offset: int64(f.Offset), DataOff: -1, CSize: f.CompressedSize, USize: f.UncompressedSize, CRC: f.CRC32}
+		if size, err := f.GetTotalSize(); err != nil {
+			return nil, fmt.Errorf("%q: total size: %w", f.Name, err)
+		} else {
+			e.End = int64(f.Offset) + size
+		}
 		if f.UncompressedSize < 1<<20 {
 			rc, err := f.Open()
 			if err != nil {
@@ -349,6 +374,9 @@ func compareBig(what string, got, want []entry) string {
 		}
 		if w.SHA != "" && g.SHA != w.SHA {
 			return fmt.Sprintf("%s: member %q content differs", what, g.Name)
+		}
+		if g.End > 0 && w.End > 0 && g.End != w.End {
+			return fmt.Sprintf("%s: member %q ends at %d (header, data and descriptor), really at %d", what, g.Name, g.End, w.End)
 		}
 	}
 	return ""
@@ -400,10 +428,10 @@ func TestC17_BeyondFourGiB(t *testing.T) {
 		const test = "TestC17_BeyondFourGiB"
 		style := rapid.SampledFrom([]string{"full", "minimal"}).Draw(t, "zip64_style")
 		k := int64(rapid.SampledFrom([]int{0, 1, 16, 4096}).Draw(t, "over"))
-		kinds := rapid.SliceOfN(rapid.SampledFrom([]string{"small", "small", "stored4g", "deflated4g"}), 2, 5).Draw(t, "members")
+		kinds := rapid.SliceOfN(rapid.SampledFrom([]string{"small", "small", "small-desc", "stored4g", "deflated4g", "stored4g-desc", "deflated4g-desc"}), 2, 5).Draw(t, "members")
 		nBig := 0
 		for _, kd := range kinds {
-			if kd != "small" {
+			if !strings.HasPrefix(kd, "small") {
 				nBig++
 			}
 		}
@@ -419,10 +447,12 @@ func TestC17_BeyondFourGiB(t *testing.T) {
 			switch kd {
 			case "small":
 				members = append(members, bigMember{name: fmt.Sprintf("m%d.txt", i), data: []byte(fmt.Sprintf("small member %d\n", i))})
-			case "stored4g":
-				members = append(members, bigMember{name: fmt.Sprintf("m%d.bin", i), size: 0xffffffff + 1 + k})
-			case "deflated4g":
-				members = append(members, bigMember{name: fmt.Sprintf("m%d.z", i), size: 0xffffffff + 1 + k, deflated: true})
+			case "small-desc":
+				members = append(members, bigMember{name: fmt.Sprintf("m%d.txt", i), data: []byte(fmt.Sprintf("small member %d with a descriptor\n", i)), desc: true})
+			case "stored4g", "stored4g-desc":
+				members = append(members, bigMember{name: fmt.Sprintf("m%d.bin", i), size: 0xffffffff + 1 + k, desc: kd == "stored4g-desc"})
+			case "deflated4g", "deflated4g-desc":
+				members = append(members, bigMember{name: fmt.Sprintf("m%d.z", i), size: 0xffffffff + 1 + k, deflated: true, desc: kd == "deflated4g-desc"})
 			}
 		}
 		// one case in three: no 4 GiB member; a stored member sized so that the header of
